@@ -12,6 +12,77 @@ import os
 from concurrent.futures import ThreadPoolExecutor
 
 HARNESS = ["props/C01/harness/root/zz_verif_c01_test.go"]
+HARNESS_SYNC = ["props/C01/harness/internal__recovery/zz_verif_c01sync_test.go"]
+
+
+def regen(ctx):
+    """T1: regenerate Gen/SubscribeOrder.lean from the current client.go."""
+    import sys
+    sys.path.insert(0, os.path.dirname(os.path.abspath(__file__)))
+    import extract_order
+    from vlib.core import REPO
+    ctx.write_gen("SubscribeOrder.lean", extract_order.generate(REPO))
+
+
+def gen_sync(rng):
+    toks = []
+    off = 1
+    for _ in range(rng.randint(1, 3)):
+        for _ in range(rng.choice([0, 0, 1, 2])):
+            toks.append(f"pub:{off}"); off += 1
+        toks.append("start")
+        for _ in range(rng.choice([0, 1, 2, 4])):
+            toks.append(f"pub:{off}"); off += 1
+        if rng.random() < 0.85:
+            toks.append("lock")
+            if rng.random() < 0.6:
+                toks.append(f"pub:{off}"); off += 1       # parks on pubBufferMu until stop
+        toks.append("stop")
+    for _ in range(rng.choice([0, 1, 2])):
+        toks.append(f"pub:{off}"); off += 1
+    return "sync " + " ".join(toks)
+
+
+def oracle_sync(op, out):
+    """PubSubSync contract used by C01(c): while a subscribe is in flight every publication is buffered
+    (and handed over by lock, in order, exactly once) or parked until stop and then delivered live;
+    outside a subscribe it is delivered live at once."""
+    toks = op.split()[1:]
+    outs = out.split()
+    if out.startswith("PANIC"):
+        return "panic in PubSubSync"
+    if out.startswith("harness-error") or len(outs) != len(toks):
+        return None
+    state, buffered = "idle", []
+    for t, o in zip(toks, outs):
+        if t == "start":
+            state, buffered = "buffering", []
+        elif t == "lock":
+            if state == "buffering":
+                exp = "lock[" + ",".join(buffered) + "]"
+                if o != exp:
+                    return f"lock handed over {o}, expected {exp} (publications buffered since start, in order)"
+                state, buffered = "locked", []
+            else:
+                if o != "lock[]":
+                    return f"lock without subscribe returned {o}"
+        elif t == "stop":
+            if state == "locked" and not (o.startswith("stop[")):
+                return "bad stop output " + o
+            if "b" in o:
+                return "a publication parked until StopBuffering was put into a buffer nobody will read (lost)"
+            state = "idle"
+        else:
+            offv = t[4:]
+            if state == "idle" and o != "l":
+                return f"publication {offv} outside a subscribe was not delivered live ({o})"
+            if state == "buffering":
+                if o != "b":
+                    return f"publication {offv} during a subscribe (before the buffer lock) was not buffered ({o})"
+                buffered.append(offv)
+            if state == "locked" and o != "p":
+                return f"publication {offv} after the buffer lock did not wait for StopBuffering ({o})"
+    return None
 
 
 # ----------------------------------------------------------------------------- generator
@@ -292,7 +363,38 @@ def run(ctx):
         "the history answer of the broker is a run of consecutive offsets (C17's invariant)",
         "stream recovery mode only (cache mode is C03)",
     ]
-    proofs_ok = ctx.lean_obligations()
+    regen(ctx)
+    proofs_ok = ctx.lean_obligations(modules=["CentrifugeVerif.Props.C01", "CentrifugeVerif.Props.C01Order"])
+    if not proofs_ok:
+        ctx.extra["regenerated_order"] = open(os.path.join("lean", "CentrifugeVerif", "Gen", "SubscribeOrder.lean")).read()[-900:]
+    # --- phase 1: PubSubSync (internal/recovery) against the Sync transition system
+    if not ctx.replay:
+        bsync = ctx.go_test_binary("internal/recovery", HARNESS_SYNC)
+        if bsync is None:
+            ctx.violation("correspondence", "harness no longer builds against internal/recovery",
+                          signature={"kind": "harness-build-sync"}, replay={"log": getattr(ctx, "build_error", "")},
+                          no_input=True)
+        else:
+            sops = ["sync pub:1 start pub:2 pub:3 lock pub:4 stop pub:5", "sync start pub:1 stop pub:2",
+                    "sync start lock pub:1 stop"] + [gen_sync(ctx.rng) for _ in range(ctx.scale(150, 3000))]
+            simpl = ctx.go_run(bsync, "TestVerifC01Sync", sops)
+            smodel = ctx.lean_run(sops) or []
+            for i, op in enumerate(sops):
+                a = simpl[i] if i < len(simpl) else "<missing>"
+                b = smodel[i] if i < len(smodel) else "<missing>"
+                ctx.record(op, nontrivial=True)
+                ctx.count("sync-scenarios")
+                if a.startswith("harness-error") or a == "<missing>":
+                    ctx.count("sync-harness-error")
+                    continue
+                msg = oracle_sync(op, a)
+                if msg:
+                    ctx.violation("property", "PubSubSync: " + msg, signature={"kind": "pubsubsync", "msg": msg[:40]},
+                                  replay={"ops": [op], "impl": [a]})
+                elif a != b:
+                    ctx.violation("correspondence", f"PubSubSync model and implementation differ: impl `{a}` model `{b}`",
+                                  signature={"kind": "diff-sync"}, replay={"ops": [op], "impl": [a], "model": [b]},
+                                  no_input=True)
     binary = ctx.go_test_binary(".", HARNESS)
     if binary is None:
         ctx.violation("correspondence", "harness no longer builds against package centrifuge",
@@ -301,6 +403,16 @@ def run(ctx):
         return
     if ctx.replay:
         ops = json.load(open(ctx.replay)).get("ops", [])
+        if ops and ops[0].startswith("sync"):
+            bsync = ctx.go_test_binary("internal/recovery", HARNESS_SYNC)
+            a = ctx.go_run(bsync, "TestVerifC01Sync", ops)
+            for op, o in zip(ops, a):
+                msg = oracle_sync(op, o)
+                print("replay:", op, "->", o, "|", msg or "ok")
+                if msg:
+                    ctx.violation("property", "PubSubSync: " + msg, signature={"kind": "pubsubsync", "msg": msg[:40]},
+                                  replay={"ops": [op], "impl": [o]})
+            return
     else:
         corpus = [l.strip() for l in open("props/C01/corpus.ops") if l.strip() and not l.startswith("#")]
         known = []
